@@ -1469,7 +1469,10 @@ static const char *broken_primitive() {
     return NULL;
 }
 static void prop_inner(Tape &t, Ctx &c);
+static bool g_timing = false;
 static void prop(Tape &t, Ctx &c) {
+    double t0 = g_timing ? now_s() : 0;
+    struct Tm { double t0; Ctx &c; ~Tm() { if (g_timing) { double d = now_s() - t0; c.count(d > 5 ? "timing:>5s" : d > 1 ? "timing:>1s" : d > 0.2 ? "timing:>0.2s" : "timing:<=0.2s"); static double mx = 0; if (d > mx) { mx = d; fprintf(stderr, "[timing] new max %.3fs\n", d); } } } } tm{ t0, c };
     try { prop_inner(t, c); }
     catch (const Fail &f) {
         if (f.sig.compare(0, 7, "harness") == 0) throw;
@@ -1488,11 +1491,12 @@ static void prop_inner(Tape &t, Ctx &c) {
         r -= e.weight;
     }
 }
-VF_TARGET("C13.bignum", prop, 1024, 0)
+VF_TARGET("C13.bignum", prop, 1024, 60)
 namespace vf {
 void vf_global_init(int, char **) {
     psCryptoOpen(PSCRYPTO_CONFIG);
     init_real();
     g_fullcov = getenv("C13_FULLCOV") != NULL;
+    g_timing = getenv("C13_TIMING") != NULL; // diagnostic only: per-case wall time histogram in the counters
 }
 }
